@@ -236,7 +236,7 @@ func (f *Frame) unknownCall(x ssa.Value, key string, args []*Val, rts []types.Ty
 		vals = append(vals, v)
 	}
 	e.noteUnknown(key)
-	if e.frameOn && e.topFC != nil && e.topFC.ModGiven && !e.topFC.NoFrame {
+	if e.frameOn && e.topFC != nil && e.modGiven(e.topFC) && !e.topFC.NoFrame {
 		// a call without contract may write anything: the frame cannot be established
 		e.addObl(&Obligation{Name: fmt.Sprintf("%s#frame[call without contract: %s]", e.unit, shortKey(key)), Kind: "frame", Func: f.prefix, Label: "unknown-call",
 			Text: "callee has no contract: its writes are unknown", Guard: f.guard(), Goal: "false", Pos: f.posOf(f.curInstr)})
@@ -407,7 +407,7 @@ func (f *Frame) applyContract(x ssa.Value, fc *FuncContract, fn *ssa.Function, k
 	}
 	// frame of the callee
 	if !fc.Pure {
-		if fc.NoFrame || !fc.ModGiven {
+		if fc.NoFrame || !f.enc.modGiven(fc) {
 			e.havocAll(st)
 		} else if len(fc.Modifies) > 0 {
 			for _, m := range fc.Modifies {
@@ -545,6 +545,18 @@ func (f *Frame) havocModifies(m *Expr, env *Env, st *State) error {
 	c := e.ctx
 	if m.Op != "call" || m.Args[0].Op != "id" || len(m.Args) != 2 {
 		return fmt.Errorf("unsupported modifies form %s", m)
+	}
+	if m.Args[0].Name == "global" {
+		g := e.globalNamed(env.fc.PkgPath, m.Args[1])
+		if g == nil {
+			return fmt.Errorf("modifies global(%s): no such package-level variable", m.Args[1])
+		}
+		gv := f.val(g)
+		pt := g.Type().Underlying().(*types.Pointer)
+		n, s := c.cellHeap(pt.Elem())
+		e.heapSet(st, n, s, store(e.heapGet(st, n, s), gv.T, c.freshConst("havoc.cell", c.sortOf(pt.Elem()))))
+		f.frameObl(gv.T, "call modifies global("+m.Args[1].String()+")", f.curInstr)
+		return nil
 	}
 	v, err := env.eval(m.Args[1])
 	if err != nil {
@@ -741,6 +753,10 @@ func (f *Frame) encodeAppend(x ssa.Value, cc *ssa.CallCommon, st *State) {
 	fr := c.freshConst("app.arr", sortRef)
 	al := e.allocArr(st)
 	c.assert(fmt.Sprintf("(and (not (= %s nil)) (not (select %s %s)))", fr, al, fr))
+	e.heapInit("alloc", "(Array Ref Bool)", 0)
+	if al != "alloc!0" {
+		c.assert(fmt.Sprintf("(not (select alloc!0 %s))", fr))
+	}
 	e.heapSet(st, "alloc", "(Array Ref Bool)", store(al, fr, "true"))
 	newCap := c.freshConst("app.cap", sortBV64)
 	c.assert(and("(bvsle "+newLen+" "+newCap+")", "(bvslt "+newCap+" #x0000100000000000)"))
@@ -811,4 +827,20 @@ func (f *Frame) runDefers(st *State) {
 		f.encodeCall(nil, cc, st)
 		f.curInstr = save
 	}
+}
+
+// globalNamed resolves `name` or `"pkg/path".name` to a package-level variable.
+func (e *Enc) globalNamed(pkgPath string, x *Expr) *ssa.Global {
+	name := x.Name
+	if x.Op != "id" {
+		return nil
+	}
+	for _, p := range e.prog.SSA.AllPackages() {
+		if p.Pkg.Path() == pkgPath {
+			if g, ok := p.Members[name].(*ssa.Global); ok {
+				return g
+			}
+		}
+	}
+	return nil
 }
